@@ -243,10 +243,15 @@ func (c *Chan) StartAof(off int64) string {
 
 // Append feeds the bytes [from, from+n) of the lineage and waits until the channel reports them.
 func (c *Chan) Append(lin int, from, n int64, runID string) string {
+	return c.AppendBytes(Bytes(lin, from, n), from, runID)
+}
+
+// AppendBytes feeds the given bytes (the source's bytes from offset `from` on) and waits until the channel reports them.
+func (c *Chan) AppendBytes(data []byte, from int64, runID string) string {
 	if c.pw == nil {
 		return "no writer"
 	}
-	data := Bytes(lin, from, n)
+	n := int64(len(data))
 	done := make(chan error, 1)
 	go func() { _, err := c.pw.Write(data); done <- err }()
 	select {
@@ -282,4 +287,31 @@ func (c *Chan) Gc() {
 	if g, ok := c.C.(interface{ VerifGcLog() }); ok {
 		g.VerifGcLog()
 	}
+}
+
+// Lineage is a replication history: up to Fork it shares its parent's bytes (a failover keeps the stream), from Fork on it is its own.
+type Lineage struct {
+	ID     int
+	Parent *Lineage
+	Fork   int64
+}
+
+func (l *Lineage) At(off int64) byte {
+	if l.Parent != nil && off < l.Fork {
+		return l.Parent.At(off)
+	}
+	return ByteAt(l.ID, off)
+}
+
+func (l *Lineage) Bytes(from, n int64) []byte {
+	b := make([]byte, n)
+	for i := range b {
+		b[i] = l.At(from + int64(i))
+	}
+	return b
+}
+
+// RunID is the 40-character replication id of the lineage.
+func (l *Lineage) RunID() string {
+	return fmt.Sprintf("%040x", 0xabc000+l.ID)
 }
